@@ -107,6 +107,8 @@ def check_c01(ctx):
     doc_evidence(ctx, obs, "C01 judges the well-formed ones: no error, and components, relations, sections, step text, "
                            "numbers, metadata and servings equal to the prediction.")
     ctx.extra["wellformed_documents"] = sum(1 for x in obs if x.get("pred", {}).get("wellformed"))
+    from . import p_parser
+    p_parser.conformance(ctx, "C01")
 
 
 def _replay(ctx, case, prop, cfg):
@@ -132,6 +134,9 @@ def _replay(ctx, case, prop, cfg):
 
 
 def replay_c01(ctx, case):
+    if case["case"].get("kind") == "parser":
+        from . import p_parser
+        return p_parser.replay(ctx, case, "C01")
     return _replay(ctx, case, "C01", "Trace_Doc_C01.cfg")
 
 
@@ -202,9 +207,14 @@ def check_c07(ctx):
                            "suppression and stage rules are judged on every record.")
     ctx.extra["documents_with_injected_defect"] = sum(1 for x in obs if "defect" in x)
     ctx.extra["defect_classes"] = sorted({x["defect"]["class"] for x in obs if "defect" in x})
+    from . import p_parser
+    p_parser.conformance(ctx, "C07")
 
 
 def replay_c07(ctx, case):
+    if case["case"].get("kind") == "parser":
+        from . import p_parser
+        return p_parser.replay(ctx, case, "C07")
     return _replay(ctx, case, "C07", "Trace_Doc_C07.cfg")
 
 
